@@ -8,8 +8,8 @@ from . import tlc, pool, monitor
 from .report import Run, Machinery
 
 
-def enumerate_rows(run, module, cfg, tag="ROW", workers=1, heap="6g", timeout=1800):
-    res = tlc.run(module, cfg, run.work + "/enum_" + module, workers=workers, heap=heap, timeout=timeout)
+def enumerate_rows(run, module, cfg, tag="ROW", workers=1, heap="6g", timeout=1800, env=None):
+    res = tlc.run(module, cfg, run.work + "/enum_" + module, workers=workers, heap=heap, timeout=timeout, env=env)
     if not res.ok:
         raise Machinery("TLC enumeration %s/%s failed: %s\n%s" % (module, cfg, res.errors or res.violated, res.out[-2500:]))
     rows = tlc.json_lines(res, tag)
